@@ -205,12 +205,18 @@ cache_network_add_page		(cache_network *	cn,
 		}
 	}
 
-	if (0 == ps->subno_min /* none yet */
-	    || cp->subno < ps->subno_min)
+	if (1 == ps->n_subpages) {
+		/* The first or only subpage of this page in the cache.
+		   (Subno 0 is a valid subpage number, not "none yet".) */
 		ps->subno_min = cp->subno;
-
-	if (cp->subno > ps->subno_max)
 		ps->subno_max = cp->subno;
+	} else {
+		if (cp->subno < ps->subno_min)
+			ps->subno_min = cp->subno;
+
+		if (cp->subno > ps->subno_max)
+			ps->subno_max = cp->subno;
+	}
 }
 
 static void
